@@ -67,6 +67,7 @@ func c01(c *ctx) {
 		cs.entries = entriesFor(r, g, 14, true, 5, alpha)
 		cases = append(cases, cs)
 	}
+	cases = append(cases, boundaryCases(len(cases))...) // terminals at the ends of the code space (see c13.go)
 	entriesSeen := map[string]bool{}
 	f := &family{c: c, tag: "c01", variantSeed: true,
 		retries: []string{"memo", "nomemo"},
